@@ -82,7 +82,7 @@ type HarnessResult struct {
 	Violations  []Violation
 	AssertReach map[string]int64
 	AssertProved map[string]int64
-	Funcs       map[string]struct{}
+	Funcs       map[string]string
 	Inconclusive []string
 	Samples     []map[string]interface{}
 	UsedOpaque  bool
@@ -129,14 +129,14 @@ type Worker struct {
 	steps   int64
 	reach   map[string]int64
 	proved  map[string]int64
-	funcs   map[string]struct{}
+	funcs   map[string]string
 	samples []map[string]interface{}
 	inconcl []string
 	maxDepth int
 }
 
 func runHarness(ld *Loaded, cfg *Config) *HarnessResult {
-	res := &HarnessResult{Harness: cfg.Harness, Paths: map[PathStatus]int64{}, AssertReach: map[string]int64{}, AssertProved: map[string]int64{}, Funcs: map[string]struct{}{}}
+	res := &HarnessResult{Harness: cfg.Harness, Paths: map[PathStatus]int64{}, AssertReach: map[string]int64{}, AssertProved: map[string]int64{}, Funcs: map[string]string{}}
 	sh := &shared{res: res, nworkers: cfg.Workers, violKeys: map[string]bool{}}
 	sh.cond = sync.NewCond(&sh.mu)
 	sh.deadline = time.Now().Add(cfg.Timeout)
@@ -169,7 +169,7 @@ func (w *Worker) run() {
 	w.paths = map[PathStatus]int64{}
 	w.reach = map[string]int64{}
 	w.proved = map[string]int64{}
-	w.funcs = map[string]struct{}{}
+	w.funcs = map[string]string{}
 	defer w.mergeStats()
 	for {
 		j, ok := w.getJob()
@@ -224,8 +224,8 @@ func (w *Worker) mergeStats() {
 	for k, v := range w.proved {
 		r.AssertProved[k] += v
 	}
-	for k := range w.funcs {
-		r.Funcs[k] = struct{}{}
+	for k, v := range w.funcs {
+		r.Funcs[k] = v
 	}
 	if len(r.Samples) < 6 {
 		r.Samples = append(r.Samples, w.samples...)
@@ -266,6 +266,19 @@ func (w *Worker) runJob(j job) {
 			return
 		}
 		w.runPath()
+		if w.solver.dead {
+			// hard timeout: restart the solver; the next execution re-asserts the prefix
+			q, sa, un, uk, st := w.solver.Queries, w.solver.NSat, w.solver.NUnsat, w.solver.NUnknown, w.solver.SolverTime
+			w.solver.Close()
+			ns, err := NewSolver(w.ts, w.cfg.SolverKind, w.cfg.QueryTimeout)
+			if err != nil {
+				panic(engineError{"cannot restart solver: " + err.Error()})
+			}
+			ns.Queries, ns.NSat, ns.NUnsat, ns.NUnknown, ns.SolverTime = q, sa, un, uk, st
+			w.solver = ns
+			w.synced = 0
+			w.modelOK = false
+		}
 		w.maybeDonate()
 		if !w.backtrack() {
 			return
@@ -398,7 +411,10 @@ func (w *Worker) runPath() {
 		w.reach[k] += int64(v)
 	}
 	for f := range in.funcsHit {
-		w.funcs[f.String()] = struct{}{}
+		name := f.String()
+		if _, ok := w.funcs[name]; !ok {
+			w.funcs[name] = in.prog.Fset.Position(f.Pos()).Filename
+		}
 	}
 	switch status {
 	case PathUnsupported, PathBudget, PathUnknown:
